@@ -12,3 +12,4 @@ import CC.Thm.C06
 #print axioms CC.Thm.C06.jh_datalen_overflow_debug
 #print axioms CC.Thm.C06.jh_bitlen_check
 #print axioms CC.Thm.C06.source_kernels_match
+#print axioms CC.Thm.C06.source_glue_match
